@@ -26,6 +26,10 @@ namespace Cctp
 @[simp] theorem throw_ok {α} (e : Fail) (b : α) : (throw e : R α) = .ok b ↔ False := by
   simp [throw, throwThe, MonadExceptOf.throw]
 
+@[simp] theorem map_ok {α β} (f : α → β) (x : R α) (b : β) :
+    (f <$> x) = .ok b ↔ ∃ a, x = .ok a ∧ f a = b := by
+  cases x <;> simp [Functor.map, Except.map]
+
 /-! panics: a chain panics iff some step does while the earlier ones succeeded. -/
 
 @[simp] theorem req_ne_panic (c : Prop) [Decidable c] : req c ≠ .error .panic := by
